@@ -53,7 +53,7 @@ def outcomeText (s : St) (dropped : Bool) : String :=
     if dropped then "-" else
     let main := String.ofList [callChar (call s .sendData), callChar (call s .createOffer), callChar (call s .waitForConnected)]
     let recv := if s.chans.isEmpty then "-" else String.ofList (s.chans.map (fun c => if c.closed then 'o' else 'p'))
-    s!"{main}/{recv}"
+    s!"{main}/{recv}/h{b01 s.held}"
   s!"{peerText s.peer},{sigText s.sig},{reasonText s.reason},{ev},{calls}"
 
 /-- the model's start state from the harness' snapshot of the real connection -/
